@@ -54,8 +54,8 @@ type Prog struct {
 // generated, git-ignored embed targets: supplied through the overlay when
 // absent from the working tree. Closed table (DESIGN.md section 1).
 var embedOverlay = map[string]string{
-	"internal/core/VERSION":           "v0.0.0\n",
-	"internal/servers/hls/hls.min.js": "// placeholder\n",
+	"internal/core/VERSION":                                     "v0.0.0\n",
+	"internal/servers/hls/hls.min.js":                           "// placeholder\n",
 	"internal/staticsources/rpicamera/mtxrpicam_32/placeholder": "x",
 	"internal/staticsources/rpicamera/mtxrpicam_64/placeholder": "x",
 }
